@@ -67,6 +67,9 @@ def units(tier, seed):
         us.append({"name": f"ctor/{cls}", "kind": "ctor", "cls": cls, "cost": 200})
     for w in ("RepeatedStepper", "ForcedStepper"):
         us.append({"name": f"ctorwrap/{w}", "kind": "ctorwrap", "wrapper": w, "cost": 200})
+    for cls in (("Burgers",) if tier == "quick" else ("Burgers", "KortewegDeVries", "AllenCahn")):
+        for first in ("J", "V", "S", "E"):
+            us.append({"name": f"ctxhist/{cls}/{first}", "kind": "ctxhist", "cls": cls, "first": first, "depth": 2 if tier == "quick" else 3, "cost": 250})
     return us
 
 
@@ -369,5 +372,55 @@ def unit_ctorwrap(u, rec):
     rec.sample({"wrapper": w, "inners": sorted(inners), "values": vals})
 
 
+def unit_ctxhist(u, rec):
+    """
+    Histories of construction contexts in FRESH interpreters (one child process per history): alphabet {E eager, J filter_jit, V filter_vmap,
+    S lax.scan body}; ALL sequences up to the depth bound.  Oracle: every element of every history gives the numbers of the eager-only history -
+    what the library computes must not depend on the context in which a class / contour size / resolution was used first in this process.
+    """
+    import json
+    import os
+    import subprocess
+    import sys
+
+    cls, depth, first = u["cls"], u["depth"], u["first"]
+    here = os.path.dirname(os.path.dirname(os.path.dirname(os.path.abspath(__file__))))
+
+    def child(seq):
+        env = dict(os.environ)
+        env["JAX_PLATFORMS"] = "cpu"
+        p = subprocess.run([sys.executable, "-m", "mc.c06child"], input=json.dumps({"seq": list(seq), "cls": cls}), capture_output=True, text=True, env=env, cwd=here)
+        if p.returncode != 0:
+            raise RuntimeError(f"child session failed: {p.stderr[-1500:]}")
+        return json.loads(p.stdout)["items"]
+
+    base = child(["E"])[0]
+    if not rec.check("y" in base, f"C06/ctxhist/eager_baseline/{cls}", "eager construction fails in a fresh interpreter", error=base.get("error")):
+        return
+    want = np.array(base["y"]).reshape(base["shape"])
+    scale = max(1.0, float(np.max(np.abs(want))))
+    rec.check(float(np.max(np.abs(want[0] - want[-1]))) > 1e-9, f"C06/ctxhist/param_inert/{cls}", "the constructor parameter has no influence (vacuous)")
+    alphabet = ["E", "J", "V", "S"]
+    n_hist = 0
+    for d in range(1, depth + 1):
+        for rest in itertools.product(alphabet, repeat=d - 1):
+            seq = (first,) + rest
+            items = child(seq)
+            n_hist += 1
+            rec.dim("history", "".join(seq))
+            for i, it in enumerate(items):
+                rec.count(states=1, transitions=1, traces=1)
+                sig = f"C06/ctxhist/{cls}/{it['ctx']}_after_{''.join(seq[:i]) or 'start'}"
+                if not rec.check("y" in it, sig + "/raises", "a construction context raises depending on what ran before it in the same process", history="".join(seq), index=i, error=it.get("error")):
+                    continue
+                got = np.array(it["y"]).reshape(it["shape"])
+                if rec.check(got.shape == want.shape and it["dtype"] == base["dtype"], sig + "/shape", "shape / dtype depends on the construction context", history="".join(seq), got=it["shape"], dtype=it["dtype"]):
+                    rec.close(float(np.max(np.abs(got - want))), 1e-10 * scale, sig + "/value",
+                              "a stepper built under jit / vmap / scan gives other numbers than the eager one, depending on the history of contexts in this process", history="".join(seq), index=i)
+            rec.outcome("".join(seq), tuple(it.get("error", "ok")[:20] for it in items))
+    rec.outcome_array(want)
+    rec.sample({"op": "context histories in fresh interpreters", "class": cls, "first": first, "depth": depth, "histories": n_hist, "alphabet": alphabet})
+
+
 def run_unit(u, rec):
-    {"prog": unit_prog, "ctor": unit_ctor, "ctorwrap": unit_ctorwrap}[u["kind"]](u, rec)
+    {"prog": unit_prog, "ctor": unit_ctor, "ctorwrap": unit_ctorwrap, "ctxhist": unit_ctxhist}[u["kind"]](u, rec)
